@@ -30,6 +30,7 @@ CONSTANTS Ops,            \* operation slots; each is used for at most one opera
           Horizon,        \* the clock stops advancing here (model checking only)
           AllowFaults,    \* transport faults enabled
           AllowStall,     \* the peer may stop reading: the driver blocks in the middle of a send until the peer resumes
+          OpenGarbage,    \* the peer may send an undecodable frame and keep the connection open (SrvGarbageOpen)
           AdapterErrors,  \* an adapter of an adapted search may fail on an entry
           AllowCancel,    \* the caller may drop an operation future while it waits (select!, an outer timeout): no scrub is sent
           AbstractTime,   \* TRUE: a timer may fire at any moment (no clock); FALSE: explicit clock `now`
@@ -57,7 +58,9 @@ vars    == <<alloc, queues, maps, chans, callerv, envv, hist, now>>
 
 Ids == 1..MaxId
 Timed(t) == t # 0
-Dur(t) == IF t < 0 THEN 0 ELSE t
+(* t = -1: a zero-length timeout; t = -2: the largest Duration there is (it never fires; setting it must change nothing else) *)
+Huge == 900000
+Dur(t) == IF t = -1 THEN 0 ELSE IF t = -2 THEN Huge ELSE t
 NoDeadline == 1000000
 (* drv: "run" (in select!), "send" (blocked inside stream.send(): no other branch is served), "exitOk" / "exitErr" *)
 DrvAlive == drv \in {"run", "send"}
@@ -411,6 +414,13 @@ SrvGarbage ==
   /\ net' = "eof"                                     \* nothing after it matters: the decoder is dead
   /\ UNCHANGED <<alloc, queues, maps, chans, callerv, drv, c2s, orphans, tok, hdrop, hist, now>>
 
+(* the same, the peer keeping the connection open and going on as if nothing had happened: the client must not wait for more *)
+SrvGarbageOpen ==
+  /\ AllowFaults /\ OpenGarbage /\ net \in {"up", "wfail", "stall"}
+  /\ drv \in {"run", "send"} /\ \A n \in 1..Len(s2c) : s2c[n].typ # "garbage"        \* once: what follows it is never read
+  /\ s2c' = Append(s2c, [id |-> 0, typ |-> "garbage", tok |-> 0, for |-> NoOp])
+  /\ UNCHANGED <<alloc, queues, maps, chans, callerv, drv, net, c2s, orphans, tok, hdrop, hist, now>>
+
 SrvClose(how) ==      \* "eof": orderly close; "reset": read error; "wfail": writes start failing
   /\ how \in {"eof", "reset", "wfail"}
   /\ AllowFaults \/ (net = "closedByClient" /\ how = "eof")
@@ -445,7 +455,7 @@ StartStep  == \E o \in Ops, k \in {"single", "search", "abandon", "unbind"}, t \
 ServerStep == \/ \E r \in c2s, typ \in {"res", "ent", "ref", "int", "done"} : SrvSend(r, typ)
               \/ \E i \in 0..MaxId, typ \in {"res", "ent", "done"} : SrvOrphan(i, typ)
               \/ \E how \in {"eof", "reset", "wfail"} : SrvClose(how)
-              \/ SrvGarbage \/ SrvStall \/ SrvResume
+              \/ SrvGarbage \/ SrvGarbageOpen \/ SrvStall \/ SrvResume
               \/ \E r \in c2s : SrvBadDone(r)
 Next == StartStep \/ CallerStep \/ UserStep \/ DriverStep \/ ServerStep \/ Tick \/ DropHandles
 
